@@ -196,6 +196,48 @@ def fsMain (dir : String) : IO Unit := do
       kk := kk + 1
     | _ => pure ()
 
+/-! ### generator decisions (accept / reject, declared types) -/
+
+partial def genLoop (h : IO.FS.Stream) (out : IO.FS.Stream) : IO Unit := do
+  let line ← h.getLine
+  if line.isEmpty then return ()
+  match line.trimAscii.toString.splitOn " " with
+  | ["G", id, derives, fuel] =>
+    let sline ← h.getLine
+    let derives := atomStr derives
+    let ds : List String := if derives == "-" then ["Debug", "Clone"] else if derives == "EMPTY" then [] else derives.splitOn ","
+    match parseSexp sline >>= toGrammar with
+    | some g =>
+      let st : Settings := { derives := ds }
+      let f := fuel.toNat?.getD 200
+      let errs := Compile.errors g st f
+      if errs.isEmpty then
+        out.putStrLn s!"{id}\tACCEPT"
+        for d in Compile.decls Compile.rustKeywordsModel g st f do
+          out.putStrLn s!"{id}\tDECL\t{d}"
+      else
+        out.putStrLn (s!"{id}\tREJECT\t" ++ " || ".intercalate errs)
+    | none => out.putStrLn s!"{id}\tBADGRAMMAR"
+    genLoop h out
+  | _ => genLoop h out
+
+/-! ### front end (Grammar::from_str) -/
+
+partial def frontLoop (h : IO.FS.Stream) (out : IO.FS.Stream) : IO Unit := do
+  let line ← h.getLine
+  if line.isEmpty then return ()
+  match line.trimAscii.toString.splitOn " " with
+  | ["T", id, hex, fuel] =>
+    match (if hex == "-" then some [] else unhex hex.toList) with
+    | some bs =>
+      match FrontEnd.parse (fuel.toNat?.getD 20000) bs with
+      | .grammar g => out.putStrLn s!"{id}\tOK\t{showGrammar g}"
+      | .parseError e => out.putStrLn s!"{id}\tPARSE_ERR\t{e.pos}\t{Spec.render e.spec}"
+      | .other m => out.putStrLn s!"{id}\tOTHER\t{m}"
+    | none => out.putStrLn s!"{id}\tBADINPUT"
+    frontLoop h out
+  | _ => frontLoop h out
+
 def main (args : List String) : IO UInt32 := do
   match args with
   | ["run", file] =>
@@ -207,6 +249,16 @@ def main (args : List String) : IO UInt32 := do
     let h ← IO.FS.Handle.mk file .read
     let out ← IO.getStdout
     unitLoop (IO.FS.Stream.ofHandle h) out
+    return 0
+  | ["frontend", file] =>
+    let h ← IO.FS.Handle.mk file .read
+    let out ← IO.getStdout
+    frontLoop (IO.FS.Stream.ofHandle h) out
+    return 0
+  | ["gen", file] =>
+    let h ← IO.FS.Handle.mk file .read
+    let out ← IO.getStdout
+    genLoop (IO.FS.Stream.ofHandle h) out
     return 0
   | ["fs", dir] =>
     fsMain dir
